@@ -690,9 +690,19 @@ class CMath(object):
     def fabs(self, x):
         return abs(x)
 
+    fork_floor = False
+    floor_candidates = (0, 1, 2, 3)
+
     def floor(self, x):
         if isinstance(x, symx.SymReal):
             import z3
+            if self.fork_floor:
+                # the integer is forked over candidate values supplied by the harness (each candidate n carries the
+                # assumption n <= x < n+1, infeasible ones are pruned); keeps ToInt out of the terms
+                ex = symx.cur()
+                n = self.floor_candidates[ex.choose(len(self.floor_candidates))]
+                ex.assume(z3.And(x.t >= n, x.t < n + 1))
+                return float(n)
             return symx.SymReal(z3.ToReal(z3.ToInt(x.t)))
         return float(math.floor(x))
 
@@ -707,6 +717,11 @@ class CMath(object):
             xt, yt = symx.SymReal.lift(x), symx.SymReal.lift(y)
             # C fmod: x - trunc(x/y)*y  (sign of x)
             q = xt / yt
+            if self.fork_floor:
+                ex = symx.cur()
+                n = self.floor_candidates[ex.choose(len(self.floor_candidates))]     # quotient >= 0 assumed
+                ex.assume(z3.And(q >= n, q < n + 1))
+                return symx.SymReal(xt - n * yt)
             tr = z3.If(q >= 0, z3.ToReal(z3.ToInt(q)), -z3.ToReal(z3.ToInt(-q)))
             return symx.SymReal(xt - tr * yt)
         return math.fmod(x, y)
